@@ -2,6 +2,7 @@
     (positive theorems for one pool are added by Sched/PoolProofs; this file holds what is
     established so far) *)
 From OCV Require Import Cases.Pool Sched.Join Sched.JoinProofs Sched.JoinHandle.
+From OCV Require Import Sched.PoolWf Sched.PoolRun Sched.PoolProofs Sched.PoolInv Sched.PoolExample.
 Open Scope Z_scope.
 
 Definition c02_witness : pcase :=
@@ -68,6 +69,16 @@ Theorem C02_join_result_handed_out_once : forall r js consumed,
   (List.length (filter (fun o => match o with JHVal _ => true | _ => false end) (jh_run true r consumed js)) <= 1)%nat.
 Proof. exact jh_at_most_once. Qed.
 
+(** * One pool, all well-formed histories: every wait/take returns the task's own outcome (or the
+    cancellation error of a task cancelled before it started, or the stop error after a stop), a result
+    is handed out once, and a wait reports "no result" only when there is none *)
+Theorem C02_single_pool : forall clock cfg ops, wf_pool1 clock cfg ops = true ->
+  po_c02 (fst (self_flags clock [cfg] ops)) = true.
+Proof. exact c02_model1. Qed.
+
+Example C02_nonvacuous : wf_pool1 0 ex_cfg ex_ops = true.
+Proof. exact ex_wf. Qed.
+
 Print Assumptions C02_refuted_result_in_stealing_pool.
 Print Assumptions C02_finished_task_never_times_out.
 Print Assumptions C02_timeout_only_without_result.
@@ -80,3 +91,4 @@ Print Assumptions C02_prompt.
 Print Assumptions C02_own_result_protocol.
 Print Assumptions C02_woken_means_result.
 Print Assumptions C02_refuted_old_protocol.
+Print Assumptions C02_single_pool.
